@@ -58,6 +58,8 @@ type Bus struct {
 	KeepRaw bool
 	Policy  Policy
 	failed  map[string]bool
+	// InFlight counts calls that are being delivered right now.
+	InFlight atomic.Int64
 	// Panics collects handler panics contained by safePacket.
 	Panics []string
 	// Intercept, when set, sees every gossip packet before delivery and may replace it (nil = drop silently).
@@ -252,6 +254,8 @@ func (c *client) pre(m *Msg) (*dkg.Process, error) {
 }
 
 func (c *client) Packet(ctx context.Context, p dnet.Peer, packet *pdkg.GossipPacket, _ ...grpc.CallOption) (*pdkg.EmptyDKGResponse, error) {
+	c.b.InFlight.Add(1)
+	defer c.b.InFlight.Add(-1)
 	m := c.record(p.Address(), gossipKind(packet), packet)
 	m.Gossip = packet
 	target, err := c.pre(m)
@@ -277,6 +281,8 @@ func (c *client) Packet(ctx context.Context, p dnet.Peer, packet *pdkg.GossipPac
 }
 
 func (c *client) BroadcastDKG(ctx context.Context, p dnet.Peer, in *pdkg.DKGPacket, _ ...grpc.CallOption) (*pdkg.EmptyDKGResponse, error) {
+	c.b.InFlight.Add(1)
+	defer c.b.InFlight.Add(-1)
 	m := c.record(p.Address(), bundleKind(in), in)
 	target, err := c.pre(m)
 	if err != nil {
